@@ -152,16 +152,17 @@ func NewDecoder(def Def, opts ...Option) (*Decoder, error) {
 
 // Decode will convert the raw []byte slice to a DecodeResult
 func (dec *Decoder) Decode(data []byte) (*DecodeResult, error) {
+	if len(data) == 0 {
+		return nil, nil
+	}
 	if dec.mode == csproto.DecoderModeSafe {
 		return dec.decodeWithPool(slices.Clone(data))
 	}
 	return dec.decodeWithPool(data)
 }
 
+// decodeWithPool always returns a non-nil result on success, also for empty data (an empty nested message)
 func (dec *Decoder) decodeWithPool(data []byte) (*DecodeResult, error) {
-	if len(data) == 0 {
-		return nil, nil
-	}
 	res, ok := dec.pool.Get().(*DecodeResult)
 	if !ok {
 		// This will only happen if the decoder was initialized outside of NewDecoder
